@@ -427,7 +427,8 @@ func runCLI(e *Env, rep *Report, rc *refCache, s cliScenario, cmd string, mu *sy
 		// default command inside the first package's directory
 		wd = filepath.Join(root, s.Pkgs[0].P.ID, "app")
 	case cmd == "gen" && s.Form == "wire ./...":
-		args = []string{"./..."}
+		// the default command takes gen's options too
+		args = append(s.Opts.args("gen", header), "./...")
 	case cmd == "gen" && (s.Form == "gen pkgs" || s.Form == "wire pkgs"):
 		// every package named explicitly, in scenario order
 		if s.Form == "gen pkgs" {
@@ -676,6 +677,16 @@ func CheckC17(e *Env) int {
 			}
 			jobs = append(jobs, job{s, cmd})
 		}
+	}
+	for _, o := range []cliOpts{{Tags: "extra"}, {Prefix: "gen_"}, {Header: "ok", Prefix: "zz_", Tags: "extra"}} {
+		// the default command (no "gen") with options
+		s := genScenario(e, 7*k+2)
+		k++
+		s.ID = fmt.Sprintf("sh%02d", k)
+		s.Opts = o
+		s.Form = "wire ./..."
+		s.Pkgs = []cliPkg{{P: cliS(k % 6), Class: 'S', Prior: []string{"stale", "absent", "identical"}[k%3]}, {P: cliN(k % 2), Class: 'N', Prior: "absent"}}
+		jobs = append(jobs, job{s, "gen"})
 	}
 	{
 		// a package that analyses cleanly but whose generated text cannot be formatted (a byte
